@@ -1085,6 +1085,11 @@ def c09_work(task):
                     return core.split(Path(wavf), **base_kw, **long_kw)
                 if kind == "wav_lazy":
                     return core.split(wavf, large_file=True, **base_kw, **long_kw)
+                if kind in ("wav_redundant", "wav_lazy_redundant"):
+                    # a caller that passes raw-audio parameters for every file alike: a wav file carries its own, which win
+                    other = dict(sr=rate, sw=1 if sw != 1 else 2, ch=1 if ch != 1 else 2) if kind == "wav_redundant" else dict(
+                        sampling_rate=2 * rate, sample_width=2 if sw != 2 else 4, channels=ch + 1)
+                    return core.split(wavf, large_file=kind.startswith("wav_lazy"), **base_kw, **long_kw, **other)
                 if kind in ("WAV", "WAV_lazy", "Wave"):
                     return core.split(wavM if kind == "Wave" else wavU, large_file=kind.endswith("lazy"), **base_kw, **long_kw)
                 if kind in ("wavx", "wavx_lazy"):
@@ -1129,7 +1134,7 @@ def c09_work(task):
 
             for kind in ("bytes", "region", "region_fn", "wav", "wav_path", "wav_lazy", "raw", "raw_lazy", "raw_fmt",
                          "raw_audio_format", "buffer_source", "raw_source", "wave_source", "reader", "reader_wav", "stdin", "stdin:1", "stdin:3",
-                         "WAV", "WAV_lazy", "Wave", "RAW", "RAW_lazy", "wavx", "wavx_lazy",
+                         "WAV", "WAV_lazy", "Wave", "RAW", "RAW_lazy", "wavx", "wavx_lazy", "wav_redundant", "wav_lazy_redundant",
                          ) + (("user_adapter", "user_adapter_mr") if ch == 1 and uc is None else ()) + ( "stdin_fd:%d,3" % (W * sw * ch - 1),
                          "stdin:%d,2" % (W * sw * ch - 1)):
                 cov["evaluations"] += 1
